@@ -15,7 +15,17 @@ import (
 // Rng is splitmix64; every random choice of a harness derives from one state.
 type Rng struct{ s uint64 }
 
-func NewRng(seed uint64) *Rng { return &Rng{s: seed*0x9E3779B97F4A7C15 + 0x1234567} }
+// NewRng hashes the seed so that nearby seeds (seed, seed+1, shards) give
+// unrelated streams (a plain seed*golden start yields the same stream shifted).
+func NewRng(seed uint64) *Rng {
+	z := seed + 0x1234567
+	for i := 0; i < 3; i++ {
+		z = (z ^ (z >> 30)) * 0xBF58476D1CE4E5B9
+		z = (z ^ (z >> 27)) * 0x94D049BB133111EB
+		z = (z ^ (z >> 31)) + 0x9E3779B97F4A7C15
+	}
+	return &Rng{s: z}
+}
 func (r *Rng) U64() uint64 {
 	r.s += 0x9E3779B97F4A7C15
 	z := r.s
